@@ -123,8 +123,9 @@ def obligations(cx):
                     ym = (yj / M1) / (yj / M1 + (1 - yj) / M2)
                     J1s, J2s = subst(Jl[0], el), subst(Jl[1], el)
                     w1 = J1s / (pfj[0] - PP * ym); w2 = J2s / (pfj[1] - PP * (1 - ym))
-                    clamp = lambda t: ite(cmp('>=', t, 0), t, 0)
-                    cx.ob("%s.%d.fingerprint.K2.%d" % (tag, i, qi), hy, band(eq(subst(pk[0].f['value'], el), clamp(w1)), eq(subst(pk[1].f['value'], el), clamp(w2))), kind='fingerprint', finding='K2', function=PI,
+                    def unclamp(t):          # the Permeance constructor clamps at 0: `v if v >= 0 else 0`; the fingerprint speaks about v
+                        return t.a[1] if t.op == 'ite' and isc(t.a[2], 0) else t
+                    cx.ob("%s.%d.fingerprint.K2.%d" % (tag, i, qi), hy, band(eq(unclamp(subst(pk[0].f['value'], el)), w1), eq(unclamp(subst(pk[1].f['value'], el)), w2)), kind='fingerprint', finding='K2', function=PI,
                           statement="the curve inverts with p x mole fraction of the permeate (the solver uses p x mass fraction)")
     # ------------------------------------------------------------------ curve from permeances, fluxes re-inverted in vacuum: original permeances
     fl_vac = Seq(n, lambda i: (lambda pfi: (app('Pa', lift(i)) * pfi[0], app('Pb', lift(i)) * pfi[1]))(thermo.gpp_apps(Tt, mix, fc.fn(lift(i)), 'NRTL')), owner='external', tag=('vac',))
